@@ -3,6 +3,7 @@ import DeepModel.Props.C15
 #print axioms C15.c15_lifo
 #print axioms C15.c15_after_trigger
 #print axioms C15.c15_completion_config_independent
+#print axioms C15.c15_failed_callback_isolated
 #print axioms C15.c15_recursion_witness
 #print axioms C15.c15_stacked_witness
 #print axioms C15.c15_capture_kind
